@@ -24,11 +24,12 @@ TRecv  == More /\ Ev.k = "recv" /\ FRecv(Ev.m) /\ l' = l + 1
 TEof   == More /\ Ev.k = "eof" /\ FEof /\ l' = l + 1
 TFault == More /\ Ev.k = "fault" /\ FFault /\ l' = l + 1
 TClose == More /\ Ev.k = "close" /\ FClose /\ l' = l + 1
+TRefused == More /\ Ev.k = "refused" /\ FRefused /\ l' = l + 1
 \* reads that fail after the server itself closed the connection
 TLateEof == More /\ Ev.k \in {"eof", "fault"} /\ cur.s = "dead" /\ UNCHANGED fvars /\ l' = l + 1
 TSilent == (Consume \/ Silent) /\ UNCHANGED l
 
-TNext == TConn \/ TSend \/ TRecv \/ TEof \/ TFault \/ TClose \/ TLateEof \/ TSilent
+TNext == TConn \/ TSend \/ TRecv \/ TEof \/ TFault \/ TClose \/ TRefused \/ TLateEof \/ TSilent
 TSpec == TInit /\ [][TNext]_tvars
 
 ASSUME TLCSet(1, 0) /\ TLCSet(2, "none")
